@@ -467,8 +467,10 @@ def run_check(pid, tier, seed, only_part=None):
              sum(v[1] for v in knownhits.values()), sum(d["inconclusive"].values()), time.time() - t0))
     for k, n in sorted(d["inconclusive"].items()):
         print("  inconclusive %-60s %d" % (k, n))
-    for kid, (k, n) in sorted(knownhits.items()):
-        print("KNOWN-FINDING: property=%s %s %s (hit %d times)" % (pid, kid, k.get("what", ""), n))
+    for k in known:
+        if k.get("property") == pid and k.get("status", "open") == "open":
+            n = knownhits.get(k["id"], [k, 0])[1]
+            print("KNOWN-FINDING: property=%s %s %s (hit %d times in this run)" % (pid, k["id"], k.get("what", ""), n))
     if fatal or d["harness_errors"]:
         for f in fatal:
             print("HARNESS-ERROR part=%s shard=%s\n%s" % (f.get("part"), f.get("shard"), f.get("fatal")))
